@@ -156,19 +156,22 @@ theorem split_irrelevant (t : Table) (first : Nat) (a b : List XRef) :
 /-! ## Cross-reference streams: the byte-level section reader returns what a conforming writer wrote -/
 
 /-- **C02, "each section in either xref format" (stream format, one subsection).** Rows written
-    big-endian in any widths `≤ 8` that fit the fields (type field omitted only when every entry is of
-    type 1) are read back exactly, in strict and in tolerant mode, and the cursor ends after the rows. -/
+    big-endian in any widths `≤ 8`, not all zero, that fit the fields (type field omitted only when every
+    entry is of type 1) are read back exactly, in strict and in tolerant mode, and the cursor ends after the rows. -/
 theorem stream_section_reads_back (first : Nat) (es : List XRef) (w0 w1 w2 : Nat) (rest : List UInt8)
     (allowErr : Bool) (h0 : w0 ≤ 8) (h1 : w1 ≤ 8) (h2 : w2 ≤ 8)
-    (hf : ∀ e ∈ es, Fits w0 w1 w2 e) (hsz : es.length * (w0 + w1 + w2) < U64) :
+    (hf : ∀ e ∈ es, Fits w0 w1 w2 e) (hpos : 0 < w0 + w1 + w2) :
     parseSection first es.length [w0, w1, w2] (encodeRows w0 w1 w2 es ++ rest) allowErr
       = .ok (⟨first, es⟩, rest) := by
   unfold parseSection
   have hrow : ¬ (w0 + w1 + w2 ≥ U64) := by unfold U64; omega
-  have hprod : ¬ (es.length * (w0 + w1 + w2) ≥ U64) := by omega
-  have hlen : ¬ (es.length * (w0 + w1 + w2) > (encodeRows w0 w1 w2 es ++ rest).length) := by
-    rw [List.length_append, encodeRows_length _ _ _ _ hf]; omega
-  simp only [hrow, hprod, hlen, if_false]
+  have hz : ¬ (w0 + w1 + w2 = 0) := by omega
+  have hlen : ¬ (es.length > (encodeRows w0 w1 w2 es ++ rest).length / (w0 + w1 + w2)) := by
+    rw [List.length_append, encodeRows_length _ _ _ _ hf]
+    have : es.length ≤ (es.length * (w0 + w1 + w2) + rest.length) / (w0 + w1 + w2) := by
+      rw [Nat.le_div_iff_mul_le hpos]; omega
+    omega
+  simp only [hrow, hz, hlen, if_false]
   rw [readEntries_encode w0 w1 w2 es rest [] h0 h1 h2 hf]
   simp
 
@@ -177,7 +180,7 @@ theorem stream_section_reads_back (first : Nat) (es : List XRef) (w0 w1 w2 : Nat
 theorem stream_sections_read_back (subs : List Sub) (w0 w1 w2 : Nat) (allowErr : Bool)
     (h0 : w0 ≤ 8) (h1 : w1 ≤ 8) (h2 : w2 ≤ 8)
     (hf : ∀ s ∈ subs, ∀ e ∈ s.entries, Fits w0 w1 w2 e)
-    (hsz : ∀ s ∈ subs, s.entries.length * (w0 + w1 + w2) < U64) (acc : List Sub) :
+    (hpos : 0 < w0 + w1 + w2) (acc : List Sub) :
     parseSections [w0, w1, w2] allowErr (subs.map fun s => (s.first, s.entries.length))
         (subs.flatMap fun s => encodeRows w0 w1 w2 s.entries) acc
       = .ok (acc.reverse ++ subs) := by
@@ -186,9 +189,9 @@ theorem stream_sections_read_back (subs : List Sub) (w0 w1 w2 : Nat) (allowErr :
   | cons s ss ih =>
     simp only [List.map_cons, List.flatMap_cons, parseSections]
     rw [stream_section_reads_back s.first s.entries w0 w1 w2 _ allowErr h0 h1 h2
-          (hf s (by simp)) (hsz s (by simp))]
+          (hf s (by simp)) hpos]
     simp only
-    rw [ih (fun x hx => hf x (by simp [hx])) (fun x hx => hsz x (by simp [hx]))]
+    rw [ih (fun x hx => hf x (by simp [hx]))]
     simp
 
 /-- a concrete section with all three entry kinds satisfies the hypotheses (non-vacuity) -/
@@ -209,8 +212,7 @@ theorem stream_history_newest_wins (size : Nat) (h : List (List Sub)) (id : Nat)
     (widths : List Sub → Nat × Nat × Nat)
     (hw : ∀ sec ∈ h, (widths sec).1 ≤ 8 ∧ (widths sec).2.1 ≤ 8 ∧ (widths sec).2.2 ≤ 8)
     (hf : ∀ sec ∈ h, ∀ s ∈ sec, ∀ e ∈ s.entries, Fits (widths sec).1 (widths sec).2.1 (widths sec).2.2 e)
-    (hsz : ∀ sec ∈ h, ∀ s ∈ sec,
-      s.entries.length * ((widths sec).1 + (widths sec).2.1 + (widths sec).2.2) < U64) :
+    (hpos : ∀ sec ∈ h, 0 < (widths sec).1 + (widths sec).2.1 + (widths sec).2.2) :
     (∀ sec ∈ h,
       parseSections [(widths sec).1, (widths sec).2.1, (widths sec).2.2] allowErr
         (sec.map fun s => (s.first, s.entries.length))
@@ -220,7 +222,7 @@ theorem stream_history_newest_wins (size : Nat) (h : List (List Sub)) (id : Nat)
   refine ⟨?_, merge_newest_wins size h id hid wf⟩
   intro sec hsec
   obtain ⟨a, b, c⟩ := hw sec hsec
-  have := stream_sections_read_back sec _ _ _ allowErr a b c (hf sec hsec) (hsz sec hsec) []
+  have := stream_sections_read_back sec _ _ _ allowErr a b c (hf sec hsec) (hpos sec hsec) []
   simpa using this
 
 
@@ -322,7 +324,7 @@ inductive Stored where
 def StoredOK (sec : List Sub) : Stored → Prop
   | .table tbl => TableText sec tbl
   | .stream w0 w1 w2 => w0 ≤ 8 ∧ w1 ≤ 8 ∧ w2 ≤ 8 ∧ (∀ s ∈ sec, ∀ e ∈ s.entries, Fits w0 w1 w2 e) ∧
-      (∀ s ∈ sec, s.entries.length * (w0 + w1 + w2) < U64)
+      0 < w0 + w1 + w2
 
 /-- the byte-level reader of that format returns the section -/
 def ReadsBack (allowErr : Bool) (sec : List Sub) : Stored → Prop
@@ -352,8 +354,8 @@ theorem file_history_newest_wins (size : Nat) (secs : List (List Sub × Stored))
     intro buf g rest p hg hb hsuf
     exact table_section_reads_back _ g _ rest hg hok hb p hsuf
   | stream w0 w1 w2 =>
-    obtain ⟨a, b, c, hf, hsz⟩ := hok
-    have := stream_sections_read_back sec w0 w1 w2 allowErr a b c hf hsz []
+    obtain ⟨a, b, c, hf, hpos⟩ := hok
+    have := stream_sections_read_back sec w0 w1 w2 allowErr a b c hf hpos []
     simpa [ReadsBack] using this
 
 end ClassicTable
